@@ -218,11 +218,28 @@ def fam_plane(ctx, rng):
 
 def fam_polygon(ctx, rng):
     pts = G.star_polygon(rng, R=rng.choice([10.0, 100.0]))
+    shape = rng.choice(['star', 'star', 'flat', 'flat', 'spike'])
+    if shape == 'flat':
+        # a flat triangle / kite with one long edge: the nearest point of a query beside the long edge is in the edge's interior while
+        # a vertex of ANOTHER edge is nearer than both of its ends
+        L = G.dy(rng.uniform(6, 20)); hgt = G.dy(rng.uniform(0.3, 1.5)); ox, oy = G.rpt2(rng, 30)
+        pts = [(ox, oy), (ox + L, oy), (ox + L * G.dy(rng.uniform(0.35, 0.65)), oy + hgt)]
+        if rng.random() < 0.5:
+            pts = [(p[1] - oy + ox, p[0] - ox + oy) for p in pts][::-1]          # the same shape standing upright
+    elif shape == 'spike':
+        # a long rectangle with a thin spike pointing at the opposite long edge from the inside (concave notch near a long edge)
+        L = G.dy(rng.uniform(8, 20)); W = G.dy(rng.uniform(2, 4)); ox, oy = G.rpt2(rng, 30); m = G.dy(rng.uniform(0.4, 0.6)) * L
+        pts = [(ox, oy), (ox + L, oy), (ox + L, oy + W), (ox + m + 0.25, oy + W), (ox + m, oy + 0.25), (ox + m - 0.25, oy + W), (ox, oy + W)]
     poly = Polygon2D([P2(p) for p in pts])
     f = [X.fpt(p) for p in pts]
     xs = [p[0] for p in pts]; ys = [p[1] for p in pts]
     w, h = max(xs) - min(xs), max(ys) - min(ys)
     qf = (G.dy(rng.uniform(min(xs) - 0.5 * w, max(xs) + 0.5 * w)), G.dy(rng.uniform(min(ys) - 0.5 * h, max(ys) + 0.5 * h)))
+    if shape != 'star':
+        # queries close to the outline (a fraction of the short side away), all around
+        e = rng.randrange(len(pts)); a_, b_ = pts[e - 1], pts[e]; t = rng.uniform(0.15, 0.85); off = rng.uniform(0.05, 0.6) * min(w, h) * rng.choice([1, -1])
+        ex, ey = b_[0] - a_[0], b_[1] - a_[1]; ln = math.hypot(ex, ey)
+        qf = (G.dy(a_[0] + t * ex - off * ey / ln), G.dy(a_[1] + t * ey + off * ex / ln))
     qp = X.fpt(qf)
     inside = X.winding_inside(f, qp)
     bd = X.sqdist_to_boundary(f, qp)
@@ -233,7 +250,7 @@ def fam_polygon(ctx, rng):
     fam = 'distance.polygon2d'
     desc = {'polygon': repr(poly.to_dict()), 'query': qf}
     sc = max(1.0, max(map(abs, xs)), max(map(abs, ys)))
-    ctx.count(fam, key=(inside, len(pts)), sample=desc)
+    ctx.count(fam, key=(inside, len(pts), shape), sample=desc)
     exp = 0.0 if inside else math.sqrt(float(bd))
     if abs(d - exp) > 1e-9 * sc:
         ctx.violation(fam + (':inside_nonzero' if inside else ':outside_wrong'), 'distance_to_point %r expected %r' % (d, exp), desc)
@@ -356,7 +373,7 @@ def best_interior_point(pts, eps, holes=()):
     return best[1]
 
 
-FAMILIES = [(fam_lines, 80), (fam_seg_seg, 60), (fam_arc, 40), (fam_plane, 25), (fam_polygon, 30), (fam_pole, 40), (fam_pole_face, 25)]
+FAMILIES = [(fam_lines, 80), (fam_seg_seg, 60), (fam_arc, 40), (fam_plane, 25), (fam_polygon, 60), (fam_pole, 40), (fam_pole_face, 25)]
 
 
 def explore(ctx):
